@@ -85,3 +85,18 @@ reg("C16",
     "one symbol between two live tables is not judged. Accepted merge "
     "de-duplications are the documented ones.",
     "DESIGN.md §5 C16")
+
+reg("C01",
+    "differential execution: original vs FortranReader->FortranWriter text "
+    "compiled with gfortran -fcheck=all, inputs vetted by a reference "
+    "interpreter that is itself compared with gfortran",
+    "Generated programs (DO incl. zero-trip/negative-step, IF chains, SELECT "
+    "CASE lists/ranges, WHERE/ELSEWHERE, sections, intrinsics, CodeBlock "
+    "WRITE statements, module + main) are read and re-written by the real "
+    "frontend/backend; both texts are compiled and run on up to 8 inputs "
+    "(n = 0,1,...) and stdout compared exactly. Sampled programs; held on "
+    "what was observed.",
+    "Only inputs my interpreter accepts and on which it equals gfortran are "
+    "judged. Four WHERE-lowering defects are known findings recognised by an "
+    "AST fact of the source plus a passing hazard-free twin.",
+    "DESIGN.md §5 C01")
